@@ -66,6 +66,13 @@ SHAPES = [
     ("no use of the defined macros", [SHIFT, ZERO], [S("X"), {S("M"): [S("O")]}], [S("X"), {S("M"): [S("O")]}]),
     ("parameterised macro called with nested argument spelling", [ZERO], [{"@zero": {"reg": S("R1")}}, {"@zero": {"reg": S("R2")}}],
      [zero(S("R1")), zero(S("R2"))]),
+    ("string macros used only inside longer names", [{"name": "@cc", "pattern": "ne"}, {"name": "@hi", "pattern": "1[0-5]"}],
+     [{"j@cc": ["%r@hi"]}, "set@cc", {S("M"): [{"$deref": {"main_reg": "%r@hi"}}]}],
+     [{"jne": ["%r1[0-5]"]}, "setne", {S("M"): [{"$deref": {"main_reg": "%r1[0-5]"}}]}]),
+    ("parameterised macro called with falsy arguments", [{"name": "@ld", "args": ["value", "reg", "tag"], "pattern": [{"$and": [
+        {"mov": ["value", "reg"]}, {"add": ["tag", "reg"]}]}]}],
+     [{"@ld": {"value": 0, "reg": S("R1"), "tag": ""}}, {"@ld": {"value": "0x0", "reg": S("R2"), "tag": False}}],
+     [{"$and": [{"mov": [0, S("R1")]}, {"add": ["", S("R1")]}]}, {"$and": [{"mov": ["0x0", S("R2")]}, {"add": [False, S("R2")]}]}]),
     ("block macro used with a times body", [SHIFT], [{"@shift": {"times": 2}}, S("X")],
      [{"$or": [S("SHL"), S("SHR")], "times": 2}, S("X")]),
     ("block macro used with a sibling times", [SHIFT], [{"@shift": None, "times": {"min": 0, "max": 3}}, S("X")],
